@@ -9,7 +9,7 @@ enum { F_MUL_MP, F_ADDMUL_MP, F_MUL, F_M4RM, F_ECH, F_ADDMUL_M4RM, F_TRSM_LL, F_
 static const char *fname[] = {"mzd_mul_mp", "mzd_addmul_mp", "mzd_mul", "mzd_mul_m4rm", "mzd_echelonize_m4ri", "mzd_addmul_m4rm", "mzd_trsm_lower_left", "mzd_trsm_upper_left", "mzd_trsm_lower_right", "mzd_trsm_upper_right", "mzd_echelonize_pluq", "mzd_inv_m4ri", "mzd_trtri_upper"};
 static scen_t SC[4096]; static int nsc = 0, cur = 0; static char NAME[200];
 static pm *A, *B, *C0, *REFM; static int REFRANK; static uint64_t GOTD; static int GOTRANK;
-static int g_tier = 0, g_teams_all = 0, g_prefill_only = 0; static unsigned g_kinds = 0xffffffffu; static int g_maxteam = 99; static char g_as[8] = "C16";
+static int g_tier = 0, g_teams_all = 0, g_prefill_only = 0; static unsigned g_kinds = 0xffffffffu; static int g_maxteam = 99, g_quicklist = 0; static char g_as[8] = "C16";
 static void add(int kind, int m, int l, int n, int param, int team) { if (!(g_kinds & (1u << kind)) || team > g_maxteam) return; if (nsc < 4096) SC[nsc++] = (scen_t){kind, m, l, n, param, team, 1, 0}; }
 static void add_prefill(int kind, int m, int l, int n, int param, int team) { if (nsc < 4096) SC[nsc++] = (scen_t){kind, m, l, n, param, team, 1, 1}; }
 static void add_env(int kind, int m, int l, int n, int param, int team, int limit, int outer) { if (!(g_kinds & (1u << kind)) || team > g_maxteam) return; if (nsc < 4096) SC[nsc++] = (scen_t){kind, m, l, n, param, team, 1, 0, limit, outer}; }
@@ -18,14 +18,14 @@ void hb_args(int argc, char **argv) {
   int tmin = 1, tmax = 16;
   for (int i = 1; i < argc; i++) { if (!strcmp(argv[i], "--tier=thorough")) g_tier = 1; if (!strncmp(argv[i], "--teams=", 8)) { sscanf(argv[i] + 8, "%d-%d", &tmin, &tmax); g_teams_all = 1; } if (!strcmp(argv[i], "--prefill-only=1")) g_prefill_only = 1;
     /* --as=Cxx --kinds=<bitmask of F_*>: the same scenarios registered as the OpenMP-build run of another property */
-    if (!strncmp(argv[i], "--as=", 5)) snprintf(g_as, sizeof g_as, "%s", argv[i] + 5); if (!strncmp(argv[i], "--max-team=", 11)) g_maxteam = atoi(argv[i] + 11); if (!strncmp(argv[i], "--kinds=", 8)) g_kinds = (unsigned)strtoul(argv[i] + 8, NULL, 0); }
+    if (!strncmp(argv[i], "--as=", 5)) snprintf(g_as, sizeof g_as, "%s", argv[i] + 5); if (!strncmp(argv[i], "--max-team=", 11)) g_maxteam = atoi(argv[i] + 11); if (!strcmp(argv[i], "--list=quick")) g_quicklist = 1; if (!strncmp(argv[i], "--kinds=", 8)) g_kinds = (unsigned)strtoul(argv[i] + 8, NULL, 0); }
   if (g_prefill_only) {
     /* non-initial start state: the block cache is FULL of large blocks (just below the caching threshold) when the parallel product
        starts, so every release of a temporary inside a section evicts a large victim */
     for (int team = 2; team <= (g_tier ? 5 : 4); team++) { add_prefill(F_MUL_MP, 200, 257, 130, 64, team); add_prefill(F_ADDMUL_MP, 131, 129, 200, 64, team); if (g_tier) add_prefill(F_MUL_MP, 257, 256, 129, 128, team); }
     return;
   }
-  if (!g_tier && !g_teams_all) {
+  if ((!g_tier || g_quicklist) && !g_teams_all) {
     /* quick tier: every team-size class (1, fewer than / equal to / more than the 4 sections, 16) on a reduced scenario list */
     static const int TS[] = {2, 3, 4, 1, 5, 8, 16};
     for (int ti = 0; ti < 7; ti++) { int team = TS[ti];
